@@ -412,6 +412,8 @@ func authValid(cs *ClientSpec, variant string) bool {
 		switch variant {
 		case "none", "unknown_client", "bad_urlencoding":
 			return false
+		case "split":
+			variant = "ok"
 		}
 		if strings.HasPrefix(variant, "assert:") {
 			return false
@@ -440,7 +442,7 @@ func authValid(cs *ClientSpec, variant string) bool {
 	case "both":
 		return !cs.OIDC
 	}
-	return false
+	return false // incl. "split": id in the Basic header with an empty password, the secret in the body
 }
 
 // authOK: authValid plus the private_key_jwt assertion variants (which need the run's clock).
@@ -519,6 +521,11 @@ func (r *Run) applyAuth(cs *ClientSpec, variant string, form url.Values) *Basic 
 			form.Set("client_id", cs.ID) // an unparsable Authorization header counts as absent: the body identifies the public client
 		}
 		return &Basic{Raw: "Basic !!!not-base64!!!"}
+	case "split":
+		if !cs.Public {
+			form.Set("client_secret", secret)
+			return &Basic{User: cs.ID, Pass: ""}
+		}
 	case "bad_urlencoding":
 		return &Basic{Raw: "Basic " + base64.StdEncoding.EncodeToString([]byte(cs.ID+":%zz"+secret))}
 	}
